@@ -1205,7 +1205,8 @@ class _iterinfo(object):
                     # days from last year's last week number in
                     # this year.
                     if -1 not in rr._byweekno:
-                        lyearweekday = datetime.date(year-1, 1, 1).weekday()
+                        lyearweekday = (self.yearweekday -
+                                        (365+calendar.isleap(year-1))) % 7
                         lno1wkst = (7-lyearweekday+rr._wkst) % 7
                         lyearlen = 365+calendar.isleap(year-1)
                         if lno1wkst >= 4:
